@@ -46,7 +46,7 @@ def strategy(tier):
               "sa": so.stream_st(False), "sb": so.stream_st(False), "foreign": st.integers(0, 5),
               "sx": so.stream_st(False, max_len=5), "derive": st.sampled_from([None, None, "ia", "ua", "ib", "ub"]),
               "round2": st.sampled_from([None, None, "a", "b"]),
-              "va": st.sampled_from(so.OPERAND_VARIANTS), "vb": st.sampled_from(so.OPERAND_VARIANTS), "nudge": st.sampled_from([0, 0, 0, 1]),
+              "va": st.sampled_from(so.OPERAND_VARIANTS), "vb": st.sampled_from(so.OPERAND_VARIANTS), "nudge": st.sampled_from([0, 0, 0, 1, 2]),
               "frac": st.sampled_from([0, 0, 0, 0, 0, 0.5, 0.25]), "fixed8": st.booleans(), "fresh_hf": st.booleans()}
     bloom = st.fixed_dictionaries(dict(common, t=st.just("bloom"), geom=geom, geom2=geom,
                                        ka=st.sampled_from(["bloom", "ondisk"]), kb=st.sampled_from(["bloom", "ondisk"])))
@@ -149,10 +149,12 @@ def run_case(case, ctx):
             else:
                 frac = 0
             if case.get("nudge") and rel in ("compat", "identical", "empty"):
-                p2_ = so.same_geometry_rate(est, fpr)
-                if p2_ is not None:
-                    fpr2 = p2_
-                    ctx.feat("operands_same_geometry_different_nominal_rate")
+                g2_ = so.same_geometry_params(est, fpr, len(case["sa"]) + 2 * len(case["sb"]))
+                if g2_ is not None:
+                    est2, fpr2 = g2_
+                    if case["nudge"] == 2:
+                        est, est2, fpr, fpr2 = est2, est, fpr2, fpr
+                    ctx.feat("operands_same_geometry_different_nominal_rate" if est2 == est else "operands_same_geometry_different_est_elements")
             snap = (lambda o, k: (so.cells(o, k), o.elements_added)) if frac else (lambda o, k: bytes(o))
             try:
                 A = so.make_bloom(ctx, ka, est, fpr, h1, "a")
